@@ -222,6 +222,34 @@ def run_case(case, ctx):
 		if len(s) and (revcomp(memoryview(wide)[::2]) != rc or revcomp(_np.frombuffer(wide, dtype=_np.uint8)[::2]) != rc):
 			raise Violation('revcomp_strided', f'revcomp of a strided view of {s!r} differs from revcomp of the same bytes', case)
 		return {'nontrivial': len(s) >= 3, 'classes': ['revcomp_random']}
+	if kind == 'fresh_process':
+		# the same conversions, but as the FIRST calls of a fresh interpreter in a drawn order (lazily initialised state)
+		from vlib import freshproc
+		calls = case['calls']
+		# each such case costs a process start: at most a fixed number per worker and tier (replays always run)
+		done = ctx.cache.get('c07_fresh_done', 0)
+		if done >= (12 if ctx.tier == 'quick' else 150) and not case.get('force'):
+			return {'nontrivial': False, 'classes': ['fresh_process_skipped(budget)']}
+		ctx.cache['c07_fresh_done'] = done + 1
+		res = freshproc.run_calls(calls)
+		for (name, arg, extra), r in zip(calls, res):
+			b = arg.encode('latin-1')
+			if name == 'kmer_to_index':
+				exp = R.ref_index(b)
+			elif name == 'kmer_to_index_rc':
+				exp = None if R.ref_index(b) is None else R.ref_index(R.ref_revcomp(b))
+			elif name == 'revcomp':
+				exp = R.ref_revcomp(b).decode('latin-1')
+			elif name == 'index_to_kmer':
+				exp = R.ref_kmer(int(arg), extra).decode()
+			else:
+				exp = R.ref_signature([b], extra[0], extra[1].encode())
+			if exp is None:
+				if r[0] != 'err':
+					raise Violation('fresh_not_rejected', f'first calls of a fresh process {calls}: {name}({arg!r}) returned {r[1]} instead of raising', case)
+			elif r != ['ok', exp]:
+				raise Violation('fresh_wrong', f'first calls of a fresh process {calls}: {name}({arg!r}) gave {r}, expected {exp!r}', case)
+		return {'nontrivial': True, 'classes': ['fresh_process', 'first_call=' + calls[0][0]]}
 	if kind == 'too_long':
 		x = case['kmer'].encode('ascii')
 		_expect_reject(x, gk, 'longer than 32')
@@ -255,4 +283,15 @@ def strategy(tier):
 	)
 	too_long = st.integers(33, 80).flatmap(lambda k: st.text(alphabet='ACGTacgt', min_size=k, max_size=k)).map(
 		lambda s: {'kind': 'too_long', 'kmer': s})
-	return st.one_of(long_kmer, long_kmer, index, rc, too_long)
+	kmer_any = st.integers(1, 32).flatmap(lambda k: st.text(alphabet='ACGTacgt', min_size=k, max_size=k))
+	bad_kmer = st.text(alphabet='ACGTNacgt-', min_size=1, max_size=12)
+	call = st.one_of(
+		st.tuples(st.just('kmer_to_index_rc'), st.one_of(kmer_any, bad_kmer), st.none()).map(list),
+		st.tuples(st.just('kmer_to_index'), st.one_of(kmer_any, bad_kmer), st.none()).map(list),
+		st.tuples(st.just('revcomp'), st.text(alphabet='ACGTacgtN-', max_size=20), st.none()).map(list),
+		st.tuples(st.just('index_to_kmer'), st.integers(0, 4 ** 6 - 1).map(str), st.just(6)).map(list),
+		st.tuples(st.just('calc_signature'), st.text(alphabet='ACGT', min_size=5, max_size=40), st.sampled_from([[3, 'A'], [4, 'AT'], [2, 'C']])).map(list),
+	)
+	fresh = st.lists(call, min_size=1, max_size=4).map(lambda cs: {'kind': 'fresh_process', 'calls': cs})
+	rare = st.sampled_from([False] * (170 if tier == 'quick' else 80) + [True] + [False] * (130 if tier == 'quick' else 70))     # sampled_from is close to uniform (integers() favours small values)
+	return rare.flatmap(lambda f: fresh if f else st.one_of(long_kmer, long_kmer, index, rc, too_long))
